@@ -1087,6 +1087,12 @@ def trigger_scenarios(quick=False):
     t("waters-only:assign-only", dict({"item": "1AJJ.pdb", "window": [0, 1], "waters": 10},
                                       damage=[[0, "drop_backbone"], [0, "keep_backbone"]],
                                       argv=["--ff=PARSE", "--assign-only"]))
+    # a complete structure (C-terminal OXT present, so no repair pass runs and nothing deletes
+    # stray atoms) in which a standard residue carries atoms outside its definition
+    PS = {"item": "1AJJ.pdb", "damage": [[36, "add_oxt"], [2, "phospho"]]}
+    t("undefined-atoms-on-standard-residue:phosphoserine", dict(PS, argv=amber))
+    t("undefined-atoms-on-standard-residue:phosphoserine:nodebump-noopt",
+      dict(PS, argv=["--ff=PARSE", "--nodebump", "--noopt"]))
     # --assign-only on a structure without hydrogens: the histidine state cannot be told
     t("assign-only-histidine-without-hd1-he2",
       dict({"item": "1AJJ.pdb", "window": [3, 14]}, argv=["--ff=AMBER", "--assign-only"]))
